@@ -4,6 +4,8 @@ report can be judged here and by TLC alike).
 
 Documents are node tables (harness/absdoc.py).  A path is a list of steps: a hash key / set member is
 its text, a list position its number, -2 stands for a path the code built but that does not parse.
+A configuration is {"arrays", "aoh", "rules": [[path, mode], ...], "keys": [[path, key], ...]} - the global
+modes and the per-path lines of an INI file ([rules] PATH = mode, [keys] PATH = key); -3 is the wildcard step.
 A valued entry is {"a": SAME|CHANGE|ADD|DELETE, "p": steps, "lv": table, "rv": table}; Python's None
 is the null value on the side an action speaks about.
 """
@@ -14,6 +16,7 @@ from harness import absdoc
 
 ACT = {"s": "SAME", "c": "CHANGE", "a": "ADD", "d": "DELETE"}
 BAD = -2
+WILD = -3
 ARRAY_MODES = ("position", "value")
 AOH_MODES = ("position", "dpos", "value", "key", "deep")
 
@@ -56,13 +59,37 @@ def steps_of(path):
     return out
 
 
-def run_differ(ldata, rdata, arrays, aoh):
+def path_text(p):
+    """Configuration path as the INI file spells it (forward-slash notation)."""
+    text = "".join("/*" if st == WILD else "[%d]" % st if isinstance(st, int) else "/" + st for st in p)
+    return text if text.startswith("/") else "/" + text
+
+
+def ini_text(cfg, defaults):
+    """The INI configuration of cfg; `defaults`: the global modes go into [defaults] instead of the command line."""
+    out = []
+    if defaults:
+        out += ["[defaults]", "arrays = %s" % cfg["arrays"], "aoh = %s" % cfg["aoh"]]
+    if cfg.get("rules"):
+        out += ["[rules]"] + ["%s = %s" % (path_text(p), v) for p, v in cfg["rules"]]
+    if cfg.get("keys"):
+        out += ["[keys]"] + ["%s = %s" % (path_text(p), v) for p, v in cfg["keys"]]
+    return "\n".join(out) + "\n"
+
+
+def run_differ(ldata, rdata, arrays, aoh, ini=None, scratch=None):
     """Differ(DifferConfig(log, args), log, lhs).compare_to(rhs); get_report() -> valued entries.
 
+    ini: text of the --config file (written to `scratch`).
     Returns (entries, None) or (None, "ExceptionType @ file:line") when the code raises.
     """
     from yamlpath.differ import Differ, DifferConfig
-    args = SimpleNamespace(arrays=arrays, aoh=aoh, config=None, debug=False, verbose=False, quiet=True)
+    conf = None
+    if ini is not None:
+        conf = scratch
+        with open(conf, "w") as fh:
+            fh.write(ini)
+    args = SimpleNamespace(arrays=arrays, aoh=aoh, config=conf, debug=False, verbose=False, quiet=True)
     try:
         differ = Differ(DifferConfig(absdoc.LOG, args), absdoc.LOG, ldata, ignore_eyaml_values=True)
         differ.compare_to(rdata)
@@ -206,12 +233,57 @@ def pair_kind(d1, i, d2, j):
     return a if a == b else "mixed"
 
 
-ORDERED = {"arr": False, "aoh": False, "mixed": False}
-ANY_ORDER = {"arr": True, "aoh": True, "mixed": True}
+ORDERED = {"arr": False, "aoh": False, "mixed": False, "rr": {}}
+ANY_ORDER = {"arr": True, "aoh": True, "mixed": True, "rr": {}}
+SYNCED = ("value", "key", "deep")
 
 
-def mode_order(cfg):
-    return {"arr": cfg["arrays"] == "value", "aoh": cfg["aoh"] in ("value", "key", "deep"), "mixed": False}
+def match_ids(d, p):
+    """Positions a configuration path matches, in document order (YDiff.MatchIds)."""
+    cur = {1}
+    for st in p:
+        cur = {c for i in cur for c in (d[i - 1]["kids"] if st == WILD else children_at(d, i, st))}
+    return sorted(cur)
+
+
+def match_sure(d, p):
+    """False when a key or wildcard step meets a list (yamlpath then searches the list's records: not modelled)."""
+    cur = {1}
+    for st in p:
+        for i in cur:
+            k = d[i - 1]["k"]
+            if k == "seq" and not (isinstance(st, int) and st >= 0):
+                return False
+            if k in ("set", "s") and st == WILD:
+                return False
+        cur = {c for i in cur for c in (d[i - 1]["kids"] if st == WILD else children_at(d, i, st))}
+    return True
+
+
+def registered(d, sect):
+    """[(id, value)] a configuration section registers on document d: section order, then match order."""
+    return [(i, v) for p, v in sect for i in match_ids(d, p)]
+
+
+def first_reg(reg):
+    out = {}
+    for i, v in reg:
+        out.setdefault(i, v)
+    return out
+
+
+def mode_order(cfg, d):
+    """Which lists are order-insensitive: by kind under the global modes, a list with a rule of its own by that rule
+    (rules are registered on the right document d, by position)."""
+    return {"arr": cfg["arrays"] == "value", "aoh": cfg["aoh"] in SYNCED, "mixed": False,
+            "rr": first_reg(registered(d, cfg.get("rules", ())))}
+
+
+def unordered(m, kind, j):
+    ru = m["rr"].get(j, "")
+    if ru == "" or kind == "mixed":
+        return m[kind]
+    return ru in SYNCED
 
 
 def eq(m, d1, i, d2, j):
@@ -227,7 +299,7 @@ def eq(m, d1, i, d2, j):
                    for ka, ca in zip(a["keys"], a["kids"]))
     if a["k"] == "set":
         return all(any(scalar_eq(d1[ca - 1], d2[cb - 1]) for cb in b["kids"]) for ca in a["kids"])
-    if m[pair_kind(d1, i, d2, j)]:
+    if unordered(m, pair_kind(d1, i, d2, j), j):
         rest = list(b["kids"])
         for ca in a["kids"]:
             hit = next((y for y, cb in enumerate(rest) if eq(m, d1, ca, d2, cb)), None)
@@ -239,7 +311,8 @@ def eq(m, d1, i, d2, j):
 
 
 def positional(cfg):
-    return cfg["arrays"] == "position" and cfg["aoh"] in ("position", "dpos")
+    return (cfg["arrays"] == "position" and cfg["aoh"] in ("position", "dpos")
+            and all(v in ("position", "dpos") for _, v in cfg.get("rules", ())))
 
 
 def _has_seq_below(d, i):
@@ -250,34 +323,49 @@ def _has_seq_at(d, i):
     return d[i - 1]["k"] == "seq" or any(_has_seq_at(d, c) for c in d[i - 1]["kids"])
 
 
-def _id_keys_fine(d, i):
-    ks = d[i - 1]["kids"]
-    if any(not d[c - 1]["keys"] for c in ks):
-        return False
-    first = d[ks[0] - 1]["keys"][0]
+def _id_keys_fine(d, i, key):
+    """Every record of list i carries the identity key (a key record) with pairwise different scalar values."""
     vals = []
-    for c in ks:
-        n = d[c - 1]
-        if n["keys"][0] != first or d[n["kids"][0] - 1]["k"] != "s":
+    for c in d[i - 1]["kids"]:
+        v = kid_by_key(d, c, key) if d[c - 1]["k"] == "map" else 0
+        if not v or d[v - 1]["k"] != "s":
             return False
-        vals.append(d[n["kids"][0] - 1])
+        vals.append(d[v - 1])
     return all(not scalar_eq(vals[x], vals[y]) for x in range(len(vals)) for y in range(len(vals)) if x != y)
 
 
 def clear_doc(cfg, d):
-    mo = mode_order(cfg)
+    rules, keys = cfg.get("rules", ()), cfg.get("keys", ())
+    if not all(match_sure(d, p) for p, _ in list(rules) + list(keys)):
+        return False
+    rr, kr = registered(d, rules), registered(d, keys)
     for i, n in enumerate(d, 1):
         if n["k"] != "seq":
             continue
         kd = seq_kind(d, i)
-        if kd == "mixed":
+        rvals, kvals = {v for x, v in rr if x == i}, {v for x, v in kr if x == i}
+        ru = next((v for x, v in rr if x == i), "")
+        aohmode = ru or cfg["aoh"]
+        arrmode = ru if ru in ("position", "value") else cfg["arrays"]
+        synced = aohmode in SYNCED if kd == "aoh" else arrmode == "value"
+        if kd == "mixed" or len(rvals) > 1 or len(kvals) > 1:
             return False
-        if kd == "aoh" and cfg["arrays"] == "value" and not mo["aoh"]:
+        if kd == "arr" and ru not in ("", "position", "value"):
             return False
-        if mo[kd] and _has_seq_below(d, i):
+        if kd == "aoh" and arrmode == "value" and aohmode not in SYNCED:
             return False
-        if kd == "aoh" and cfg["aoh"] in ("key", "deep") and not _id_keys_fine(d, i):
+        if synced and _has_seq_below(d, i):
             return False
+        if kd == "aoh" and aohmode in ("key", "deep"):
+            if kvals:
+                key = {"t": "str", "v": next(iter(kvals))}
+            else:
+                first = d[n["kids"][0] - 1]["keys"]
+                if not first:
+                    return False
+                key = first[0]
+            if not _id_keys_fine(d, i, key):
+                return False
     return True
 
 
@@ -289,7 +377,7 @@ def expect(cfg, l, r):
         return "diff"
     if not (clear_doc(cfg, l) and clear_doc(cfg, r)):
         return "info"
-    return "same" if eq(mode_order(cfg), l, 1, r, 1) else "diff"
+    return "same" if eq(mode_order(cfg, r), l, 1, r, 1) else "diff"
 
 
 # --------------------------------------------------------------------------- the statement's predicates
@@ -483,11 +571,32 @@ def _all_tags(l, i, r, j, cfg):
 PRIORITY = ("null-seq-element", "record-lacks-identity-key", "empty-rhs-seq", "void-in-kind-clash", "aoh-whole-record")
 
 
+def config_cause(l, r, cfg):
+    """Which deviation of the per-path lookups (differconfig.py) the configuration can trigger on this pair."""
+    rules, keys = cfg.get("rules", ()), cfg.get("keys", ())
+    rr, kr = registered(r, rules), registered(r, keys)
+    seqs = [i for i, n in enumerate(r, 1) if n["k"] == "seq"]
+    for i, v in rr:
+        if v == "dpos" and r[i - 1]["k"] == "seq" and r[i - 1]["kids"] and r[r[i - 1]["kids"][0] - 1]["k"] == "map":
+            return "rule-dpos"                                # NameError from array_diff_mode (differ.py:393)
+    for i, v in rr:
+        if r[i - 1]["k"] == "seq" and r[i - 1]["par"] and r[r[i - 1]["par"] - 1]["k"] == "seq":
+            return "zip-parentref"                            # parentref = position + 1 (differ.py:399-421)
+    for i, v in rr + kr:
+        if r[i - 1]["k"] == "seq" and any(j != i and eq(ORDERED, r, i, r, j) for j in seqs):
+            return "config-by-value"                          # == instead of `is` (differconfig.py:94-104, 236-243)
+    return None
+
+
 def cause(l, r, cfg, path):
     """Input class of a failure witnessed at `path`: the outermost deviation possible on the way to it
     (the differ stops descending there), looking first at the pair of nodes the path designates in both
     documents and, in the synchronised modes, then at the pairs a list position of one side may have been
     matched with.  Else any deviation possible anywhere in the pair ("near-")."""
+    if cfg.get("rules") or cfg.get("keys"):
+        tag = config_cause(l, r, cfg)
+        if tag:
+            return tag
     path = [st for st in (path or []) if st != BAD]
     pos = positional(cfg) or plain_eq(l, r)       # a document against itself: a position is matched with itself
     aligned, perm = (1, 1), set()
